@@ -22,7 +22,7 @@ EXPLANATION = (
     "__str__, including through property getters) is assigned on every constructor path of every concrete class "
     "using it or guarded by hasattr, %-formatting of possibly-tuple attributes is tuple-wrapped; (D5) no possibly "
     "unbound local in the expect machinery (guard-correlated definite assignment); (D6) flag_eof is set before "
-    "every raise EOF of the transports; (D7) the entry points hand the loop's outcome back unchanged; (D8) each transport translates the library's 'nothing arrived in time' signals (socket.timeout and, for timeout 0, BlockingIOError) into TIMEOUT. NOT decided: "
+    "every raise EOF of the transports; (D7) the entry points hand the loop's outcome back unchanged and build the searcher in the call from the call's own pattern list (EOF/TIMEOUT are looked up at their positions in the list that was passed); (D8) each transport translates the library's 'nothing arrived in time' signals (socket.timeout and, for timeout 0, BlockingIOError) into TIMEOUT. NOT decided: "
     "that a later call after EOF does not block (OS), message wording.")
 TRUSTED = ["Python exception-handler matching order", "sa/ engine (CFG with exception edges, must-dataflow)"]
 ASSUMPTIONS = ["EOF and TIMEOUT are unrelated sibling classes (checked: both derive directly from ExceptionPexpect)"]
